@@ -1,8 +1,8 @@
 #!/bin/bash
 # Regression over every kept seeded change: each must be detected by the quick check of its own property.
-# usage: tools/seedsweep.sh [jobs]
+# usage: [SEEDS="C1[2-4]-[a-d]*"] tools/seedsweep.sh [jobs]
 cd "$(dirname "$0")/.."
 J=${1:-3}
 run() { d=$1; id=$(basename $d | cut -c1-3); out=$(tools/seedtest.py "$d/patch.diff" $id 2>&1 | grep -E "^C[0-9]+:|PATCH FAILED" | cut -c1-160 | tr '\n' ' '); echo "$(basename $d): $out"; }
 export -f run
-ls -d seeded/*/ | xargs -P "$J" -I{} bash -c 'run {}'
+ls -d seeded/${SEEDS:-*}/ | xargs -P "$J" -I{} bash -c 'run {}'
